@@ -4,7 +4,7 @@
 use crate::common::*;
 use crate::hist::*;
 use crate::tok::*;
-use matreex::Matrix;
+use matreex::{Matrix, Order};
 
 trait Bits: Copy {
     fn bits(self) -> u128;
@@ -286,6 +286,94 @@ macro_rules! neg_forms {
     }};
 }
 
+/// signed integer types: negative elements and scalars (truncated division / remainder, where a
+/// shift or a mask is NOT the primitive operator), zero scalars for + and *, all assign / consuming /
+/// borrowed forms; compared with the primitive operator applied elementwise
+macro_rules! signed_specials {
+    ($out:expr, $t:ty, $tn:expr) => {{
+        $out.case(&format!("scalar-forms signed specials type={}", $tn));
+        $out.nontrivial();
+        let ev: [$t; 6] = [-7, 5, -3, 12, -1, 0];
+        for order in ORDERS {
+            for &s in &[4 as $t, -4, 1, -1, 2, 8, 3, -3, 0] {
+                let m: Matrix<$t> = mk_from(order, 2, 3, ev.to_vec());
+                let want_shape = shape_str(&m);
+                macro_rules! chk_a {
+                    ($opn:expr, $opa:tt, $opb:tt) => {{
+                        for sc in ["v", "r"] {
+                            let op = format!("scassign {} {} {} {}", $tn, $opn, sc, want_shape);
+                            $out.announce(&op);
+                            let mut x = m.clone();
+                            if sc == "v" { x $opa s; } else { x $opa &s; }
+                            let vals: Vec<$t> = x.iter_elements().copied().collect();
+                            let exp: Vec<$t> = ev.iter().map(|&e| e $opb s).collect();
+                            let ok = vals == exp;
+                            if !ok { $out.oracle_fail(&format!("{op} with scalar {s:?}: {:?} is not `element op scalar` = {:?}", vals, exp)); }
+                            $out.observe(&format!("{} {}", if ok { "ES" } else { "none" }, shape_str(&x)));
+                        }
+                    }};
+                }
+                macro_rules! chk_b {
+                    ($opn:expr, $side:expr, $mat:expr, $res:expr, $exp:expr) => {{
+                        let op = format!("sc {} {} {} {} v v {}", $tn, $opn, $side, $mat, want_shape);
+                        $out.announce(&op);
+                        let r: Matrix<$t> = $res;
+                        let vals: Vec<$t> = r.iter_elements().copied().collect();
+                        let exp: Vec<$t> = $exp;
+                        let ok = vals == exp;
+                        if !ok { $out.oracle_fail(&format!("{op} with scalar {s:?}: {:?} differs from {:?}", vals, exp)); }
+                        $out.observe(&format!("{} {}", if ok { if $side == "L" { "ES" } else { "SE" } } else { "none" }, shape_str(&r)));
+                    }};
+                }
+                chk_a!("add", +=, +);
+                chk_a!("sub", -=, -);
+                chk_a!("mul", *=, *);
+                chk_b!("add", "L", "o", m.clone() + s, ev.iter().map(|&e| e + s).collect());
+                chk_b!("sub", "R", "b", s - &m, ev.iter().map(|&e| s - e).collect());
+                chk_b!("mul", "R", "o", s * m.clone(), ev.iter().map(|&e| s * e).collect());
+                if s != 0 {
+                    chk_a!("div", /=, /);
+                    chk_a!("rem", %=, %);
+                    chk_b!("div", "L", "b", &m / s, ev.iter().map(|&e| e / s).collect());
+                    chk_b!("rem", "L", "o", m.clone() % s, ev.iter().map(|&e| e % s).collect());
+                    chk_b!("rem", "L", "b", &m % s, ev.iter().map(|&e| e % s).collect());
+                }
+            }
+        }
+    }};
+}
+
+/// the generic family on a source of zero-sized elements with a sized output (the output's size
+/// decides the capacity check; the closure runs once per element): harness-side oracle only
+fn generic_zero_sized_source(out: &mut Out) {
+    out.case("scalar-generic zero-sized source");
+    out.nontrivial();
+    for (nr, nc) in [(0usize, 0usize), (2, 3), (1, 5), (3, 0)] {
+        for order in ORDERS {
+            for variant in ["ref", "consume", "assign"] {
+                let op = format!("oracle scgen-zst {variant} {} {nr} {nc}", ord_ch(order));
+                out.announce(&op);
+                let calls = std::cell::Cell::new(0usize);
+                let m: Matrix<()> = mk(order, nr, nc, |_| ());
+                let res: Option<Result<(usize, usize, Order, Vec<u8>), matreex::Error>> = match variant {
+                    "ref" => catch(|| m.scalar_operation(&7u8, |_, s| { calls.set(calls.get() + 1); *s }).map(|r| (r.nrows(), r.ncols(), r.order(), r.iter_elements().copied().collect()))),
+                    "consume" => catch(|| m.scalar_operation_consume_self(&7u8, |_, s| { calls.set(calls.get() + 1); *s }).map(|r| (r.nrows(), r.ncols(), r.order(), r.iter_elements().copied().collect()))),
+                    _ => { let mut m = m; catch(|| { m.scalar_operation_assign(&7u8, |_, _| { calls.set(calls.get() + 1); }); Ok((m.nrows(), m.ncols(), m.order(), vec![7u8; nr * nc])) }) }
+                };
+                match res {
+                    Some(Ok((r, c, o, v))) => {
+                        if (r, c, o) != (nr, nc, order) || v != vec![7u8; nr * nc] || calls.get() != nr * nc {
+                            out.oracle_fail(&format!("{op}: result {r}x{c} {:?} {:?}, closure called {} times for {} elements", o, v, calls.get(), nr * nc));
+                        }
+                    }
+                    other => out.oracle_fail(&format!("{op}: expected Ok, implementation gave {:?}", other.map(|x| x.map(|_| ())))),
+                }
+                out.observe("ok");
+            }
+        }
+    }
+}
+
 /// generic scalar_operation family with a recording closure on token matrices
 fn generic(out: &mut Out, bound: usize) {
     for nr in 0..=bound {
@@ -332,7 +420,14 @@ pub fn run_c18(out: &mut Out, _rng: &mut Rng, tier: Tier) -> String {
     neg_forms!(out, isize, "isize");
     neg_forms!(out, f32, "f32");
     neg_forms!(out, f64, "f64");
+    signed_specials!(out, i8, "i8");
+    signed_specials!(out, i16, "i16");
+    signed_specials!(out, i32, "i32");
+    signed_specials!(out, i64, "i64");
+    signed_specials!(out, i128, "i128");
+    signed_specials!(out, isize, "isize");
     generic(out, if tier == Tier::Quick { 3 } else { 5 });
+    generic_zero_sized_source(out);
     let s = snapshot();
     if s.double_drops > 0 || s.live != 0 {
         out.oracle_fail(&format!("ledger at the end of the run: {} tokens still live, {} double drops", s.live, s.double_drops));
@@ -340,6 +435,6 @@ pub fn run_c18(out: &mut Out, _rng: &mut Rng, tier: Tier) -> String {
     out.exhaustive = true;
     "exhaustive over the impl table: 14 primitive types x {+,-,*,/,%} x 16 operator forms (matrix or &matrix, element or &element, scalar or &scalar, scalar left or right) + 2 assign forms, each on 2x3 matrices in both storage orders and on a 64x65 and a 3x1400 matrix (beyond any plausible small-size threshold) \
      with non-commutative witnesses (distinct non-zero operands, no overflow), results compared bitwise with the primitive operator applied in both orientations (the model supplies the orientation from the re-extracted table); \
-     float signed zeros / infinities and awkward finite values (non-power-of-two and subnormal scalars, all assign forms); unary negation (owned and borrowed) for the 8 signed/float types; the generic scalar_operation family (three variants) with a recording closure on token matrices of every shape up to the bound. \
+     float signed zeros / infinities and awkward finite values (non-power-of-two and subnormal scalars, all assign forms); negative elements / scalars and power-of-two, unit and zero scalars for the six signed integer types (truncated / and %); the generic family on a zero-sized source with a sized output; unary negation (owned and borrowed) for the 8 signed/float types; the generic scalar_operation family (three variants) with a recording closure on token matrices of every shape up to the bound. \
      A case = one primitive type (all its forms) or one shape".to_string()
 }
